@@ -4,6 +4,11 @@ COQ = "machine-checked proof in Coq 8.16.1 about a hand-written Gallina model; m
 NOT_CLAIMED = {}
 
 CLAIMS = {
+    "C18": dict(
+        technique="Coq proof of the tool's logic (pair enumeration = library layout, LE codec round trip, method-name parser) + translator for the name tables + differential runs of the real binary over thread counts",
+        text="Theorems (Props/C18.v, closed): the flat_map pair enumeration equals the row-major enumeration of C07 for every n (so entry cidx(i,j) is the distance of records i,j); encode/decode of little-endian 64-bit words round-trips for every list and ragged files are rejected; a method name is accepted iff it is one of the seven names and then denotes that method, anything else gives exit status 1. PARTIAL: Haversine (libm), CSV parsing and the thread schedule of rayon's indexed collect are outside any Gallina model; they are covered by running the real binary on generated CSVs (0..70/300 records, duplicates, poles/antimeridian, shipped files) x 7 methods x RAYON_NUM_THREADS in {1,2,3,7,16}: stdout steps vs sequential Haversine + linkage bit for bit, saved matrix byte-identical, load reproduces stdout, invalid names rejected.",
+        note="rayon's ordering contract and libm are trusted/tested, not proved. The name tables (FromStr) are regenerated from src/lib.rs each run (Gen/Tables.v). Print Assumptions: closed.",
+    ),
     "C15": dict(
         technique="Coq proof (capi_len_ok in checked and wrapping arithmetic, capi_steps; the pre-fix defect as capi_len_unfixed_refuted) + three-way correspondence: C driver on libkodama.a (dev and release) vs Rust linkage vs model",
         text="Theorems (Props/C15.v, closed): after the fix the length expression equals n(n-1)/2 in both build profiles for every n<2^32 including 0 and 1 (the shipped expression is refuted for n=0 in the dev profile: the defect repaired by the fix: commit); for both entry points the handle holds exactly the steps of linkage (dissimilarity widened exactly), the n passed in, and aborts iff linkage panics. Tie: client histories (n 0..22, all 7 enumerators by header name, tied/tie-free, double and float) replayed through the real staticlib in dev AND release profiles, compared bit for bit with the Rust linkage and with the model.",
